@@ -22,7 +22,7 @@ for arg in sys.argv[1:]:
         meta_all = json.load(open(os.path.join(out, 'meta.json')))
     except Exception as e:
         print(pid, 'no meta.json', e)
-    for letter in 'abcdefghij':
+    for letter in 'abcdefghijkl':
         patch = os.path.join(out, f'patch_{letter}.diff')
         dem = os.path.join(out, f'demo_{letter}.py')
         if not (os.path.exists(patch) and os.path.exists(dem)):
